@@ -15,7 +15,7 @@ package factory
 //@ ensures [init-once] implies(result == nil, InitCalls[name] == old(InitCalls[name]) + ite(implements(component, definition.InitializeComponent), 1, 0))
 //@ ensures [other-components-untouched] forall(n, string, implies(n != name, St[n] == old(St[n]) && ApsCalls[n] == old(ApsCalls[n]) && InitCalls[n] == old(InitCalls[n])))
 //@ ensures [at-most-once] old(ApsCalls[name]) <= ApsCalls[name] && ApsCalls[name] <= old(ApsCalls[name]) + 1 && old(InitCalls[name]) <= InitCalls[name] && InitCalls[name] <= old(InitCalls[name]) + 1
-//@ ensures [failure-recorded] Failed == (old(Failed) || result != nil)
+//@ ensures [failure-surfaces] implies(result == nil, Failed == old(Failed))
 //@ ghost before call AfterPropertiesSet: CurName = name
 //@ ghost before call Init: CurName = name
 
@@ -30,7 +30,7 @@ package factory
 //@ ensures [error-means-nil] implies(result1 != nil, result0 == nil)
 //@ ensures [never-nil-on-success] implies(result1 == nil, result0 != nil || c == nil)
 //@ ensures [other-components-untouched] forall(m, string, implies(m != name, BeforeLen[m] == old(BeforeLen[m]) && BeforeAt[m] == old(BeforeAt[m])))
-//@ ensures [failure-recorded] Failed == (old(Failed) || result1 != nil)
+//@ ensures [failure-surfaces] implies(result1 == nil, Failed == old(Failed))
 //@ loop 1 invariant [trace-length] BeforeLen[name] == b0 + _done && 0 <= _done && _done <= n
 //@ loop 1 invariant [trace-in-order] forall(k, int, implies(b0 <= k && k < b0 + _done, BeforeAt[name][k] == f.componentPostProcessors[k - b0]), BeforeAt[name][k])
 //@ loop 1 invariant [no-failure-so-far] Failed == old(Failed) && (current != nil || c == nil)
@@ -38,7 +38,7 @@ package factory
 
 //@ func (*PostProcessorRegistrationDelegate).applyPostProcessAfterInitialization
 //@ property C05 C09 C12
-//@ requires [init-methods-done] St[name] == 5
+//@ requires [init-methods-done] St[name] == 5 || ShortCircuit[name]
 //@ requires [processors-non-nil] ProcsOK(f)
 //@ assigns AfterLen, AfterAt, Failed
 //@ let n = len(f.componentPostProcessors)
@@ -47,7 +47,7 @@ package factory
 //@ ensures [error-means-nil] implies(result1 != nil, result0 == nil)
 //@ ensures [never-nil-on-success] implies(result1 == nil && c != nil, result0 != nil)
 //@ ensures [other-components-untouched] forall(m, string, implies(m != name, AfterLen[m] == old(AfterLen[m]) && AfterAt[m] == old(AfterAt[m])))
-//@ ensures [failure-recorded] Failed == (old(Failed) || result1 != nil)
+//@ ensures [failure-surfaces] implies(result1 == nil, Failed == old(Failed))
 //@ loop 1 invariant [trace-length] AfterLen[name] == a0 + _done && 0 <= _done && _done <= n
 //@ loop 1 invariant [trace-in-order] forall(k, int, implies(a0 <= k && k < a0 + _done, AfterAt[name][k] == f.componentPostProcessors[k - a0]), AfterAt[name][k])
 //@ loop 1 invariant [no-failure-so-far] Failed == old(Failed) && (result != nil || c == nil)
@@ -66,7 +66,216 @@ package factory
 //@ ensures [returns-component] implies(result1 == nil, result0 != nil)
 //@ ensures [init-methods-at-most-once] ApsCalls[name] <= old(ApsCalls[name]) + 1 && InitCalls[name] <= old(InitCalls[name]) + 1
 //@ ensures [other-components-untouched] forall(q, string, implies(q != name, St[q] == old(St[q]) && ApsCalls[q] == old(ApsCalls[q]) && InitCalls[q] == old(InitCalls[q]) && BeforeLen[q] == old(BeforeLen[q]) && AfterLen[q] == old(AfterLen[q])))
-//@ ensures [failure-recorded] Failed == (old(Failed) || result1 != nil)
+//@ ensures [failure-surfaces] implies(result1 == nil, Failed == old(Failed))
 //@ ghost after call applyPostProcessBeforeInitialization: St = store(St, name, 2)
 //@ ghost after call invokeInitMethods: St = store(St, name, 5)
 //@ ghost after call applyPostProcessAfterInitialization: St = store(St, name, 6)
+
+// ---- component creation (C01, C02, C03, C05, C09) ------------------------------------------------------------------
+//   Reg(f)      the factory's singleton cache, seen through its interface-level contract (C04)
+//   Cur(r, n)   what a lookup of n currently answers: the published instance, else the early reference, else nil
+//   FWired(f)   the factory's wiring, set once by Default()/SetX and never written afterwards
+//   FInv(f)     wiring + registry invariant (which includes: cached values are built Metas)
+//@ spec func Reg(f *defaultFactory) container.SingletonComponentRegistry = f.singletonComponentRegistry
+//@ spec func Cur(r container.SingletonComponentRegistry, n string) *component_definition.Meta = ite(r.L1Dom[n], r.L1[n], ite(r.L2Dom[n], r.L2[n], nil))
+//@ spec func FWired(f *defaultFactory) bool = f != nil && f.singletonComponentRegistry != nil && f.definitionRegistry != nil && f.postProcessorRegistrationDelegate != nil && f.allowCircularReferences
+//@ spec func FInv(f *defaultFactory) bool = FWired(f) && RegInv(Reg(f)) && DefInv(f.definitionRegistry) && ProcsOK(f.postProcessorRegistrationDelegate)
+
+//@ func (*defaultFactory).createComponent
+//@ property C01 C02 C03 C05 C09
+//@ requires [inv] FInv(f)
+//@ requires [marked-with-hole] Reg(f).IC[name] && Reg(f).HasHole && Reg(f).Hole == name
+//@ assigns RegFrame(Reg(f)), CreationFrame()
+//@ ensures [inv-kept] FInv(f)
+//@ ensures [rely] RegRely(Reg(f))
+//@ ensures [returns-built-meta] implies(result1 == nil, MetaOK(result0))
+//@ ensures [error-means-nil] implies(result1 != nil, result0 == nil)
+//@ ensures [marks-untouched] Reg(f).IC == old(Reg(f).IC)
+//@ ensures [hole-only-own] implies(Reg(f).HasHole, Reg(f).Hole == name)
+//@ ensures [counts-creation] Reg(f).Creates[name] == old(Reg(f).Creates[name]) + 1
+//@ ensures [failure-surfaces] implies(result1 == nil, Failed == old(Failed))
+//@ ensures [lifecycle-complete] implies(result1 == nil, St[name] == 6 || ShortCircuit[name])
+//@ ensures [stack-kept] StackKept(Reg(f), name)
+//@ ghost before call GetMetaByName: f.singletonComponentRegistry.Creates = store(f.singletonComponentRegistry.Creates, name, f.singletonComponentRegistry.Creates[name] + 1)
+//@ ghost before call GetMetaByName: St = store(St, name, 0)
+//@ ghost before call GetMetaByName: ShortCircuit = store(ShortCircuit, name, false)
+
+// The creating callback handed to the registry: a closure over (f, name).
+//@ func (*defaultFactory).doGetComponent$1
+//@ property C01 C02 C04
+//@ callback (container.SingletonFactory).GetComponent as container.FuncSingletonFactory
+//@ stable f.singletonComponentRegistry, f.definitionRegistry, f.postProcessorRegistrationDelegate
+//@ requires-at-creation [factory-wired] FWired(f) && DefInv(f.definitionRegistry) && ProcsOK(f.postProcessorRegistrationDelegate)
+//@ requires [inv] RegInv(Reg(f))
+//@ requires [marked-with-hole] Reg(f).IC[name] && Reg(f).HasHole && Reg(f).Hole == name
+//@ assigns RegFrame(Reg(f)), CreationFrame()
+//@ ensures [inv-kept] RegInv(Reg(f))
+//@ ensures [rely] RegRely(Reg(f))
+//@ ensures [returns-built-meta] implies(result1 == nil, MetaOK(result0))
+//@ ensures [marks-untouched] Reg(f).IC == old(Reg(f).IC)
+//@ ensures [hole-only-own] implies(Reg(f).HasHole, Reg(f).Hole == name)
+//@ ensures [counts-creation] Reg(f).Creates[name] == old(Reg(f).Creates[name]) + 1
+//@ ensures [stack-kept] StackKept(Reg(f), name)
+//@ ensures [failure-surfaces] implies(result1 == nil, Failed == old(Failed))
+
+//@ func (*defaultFactory).doGetComponent
+//@ property C01 C02 C03 C05 C09
+//@ requires [inv] FInv(f)
+//@ requires [no-hole] !Reg(f).HasHole
+//@ assigns RegFrame(Reg(f)), CreationFrame()
+//@ closure 1 ghost closure.Role = RoleCreator()
+//@ closure 1 ghost closure.ForName = name
+//@ closure 1 ghost closure.Reg = f.singletonComponentRegistry
+//@ ensures [inv-kept] FInv(f) && !Reg(f).HasHole
+//@ ensures [rely] RegRely(Reg(f))
+//@ ensures [returns-current] implies(result1 == nil, result0 != nil && result0 == Cur(Reg(f), name))
+//@ ensures [error-means-nil] implies(result1 != nil, result0 == nil)
+//@ ensures [hit-no-create] implies(old(Reg(f).L1Dom[name] || Reg(f).L2Dom[name] || Reg(f).L3Dom[name]), Reg(f).Creates == old(Reg(f).Creates))
+//@ ensures [in-creation-gets-early] implies(old(Reg(f).IC[name]) && result1 == nil, Reg(f).IC[name] && Reg(f).Creates == old(Reg(f).Creates) && result0 == Reg(f).L2[name])
+//@ ensures [creates-at-most-once] Reg(f).Creates[name] <= old(Reg(f).Creates[name]) + 1
+//@ ensures [marks-untouched] Reg(f).IC == old(Reg(f).IC)
+//@ ensures [published-or-on-stack] implies(result1 == nil, Reg(f).L1Dom[name] || Reg(f).IC[name])
+//@ ensures [stack-kept] StackKeptAll(Reg(f))
+//@ ensures [failure-surfaces] implies(result1 == nil, Failed == old(Failed))
+
+//@ func (*defaultFactory).GetComponentByName
+//@ property C01 C07
+//@ requires [inv] FInv(f)
+//@ requires [no-hole] !Reg(f).HasHole
+//@ assigns RegFrame(Reg(f)), CreationFrame()
+//@ ensures [inv-kept] FInv(f) && !Reg(f).HasHole
+//@ ensures [lookup-is-raw] implies(result1 == nil, Cur(Reg(f), name) != nil && result0 == Cur(Reg(f), name).Raw)
+
+// ---- instantiation-aware hooks of the delegate ---------------------------------------------------------------------
+
+//@ func (*PostProcessorRegistrationDelegate).applyPostProcessBeforeInstantiation
+//@ property C05 C09
+//@ requires [before-population] St[name] == 0
+//@ requires [processors-non-nil] ProcsOK(f)
+//@ assigns Failed
+//@ ensures [error-means-nil] implies(result1 != nil, result0 == nil)
+//@ ensures [failure-surfaces] implies(result1 == nil, Failed == old(Failed))
+//@ loop 1 invariant [no-failure-so-far] Failed == old(Failed)
+
+//@ func (*PostProcessorRegistrationDelegate).ResolveBeforeInstantiation
+//@ property C05 C09
+//@ requires [before-population] St[name] == 0
+//@ requires [processors-non-nil] ProcsOK(f)
+//@ assigns AfterLen, AfterAt, Failed, ShortCircuit
+//@ ensures [error-means-nil] implies(result1 != nil, result0 == nil)
+//@ ensures [short-circuit-marked] implies(result1 == nil && result0 != nil, ShortCircuit[name])
+//@ ensures [others-untouched] forall(q, string, implies(q != name, ShortCircuit[q] == old(ShortCircuit[q]) && AfterLen[q] == old(AfterLen[q])))
+//@ ensures [failure-surfaces] implies(result1 == nil, Failed == old(Failed))
+//@ ghost before call applyPostProcessAfterInitialization: ShortCircuit = store(ShortCircuit, name, true)
+
+//@ func (*PostProcessorRegistrationDelegate).ResolveAfterInstantiation
+//@ property C05 C09 C18
+//@ requires [before-population] St[name] == 0
+//@ requires [processors-non-nil] ProcsOK(f)
+//@ requires [meta-built] MetaOK(meta)
+//@ assigns CreationFrame()
+//@ ensures [lifecycle-untouched] St == old(St) && BeforeLen == old(BeforeLen) && AfterLen == old(AfterLen) && ApsCalls == old(ApsCalls) && InitCalls == old(InitCalls) && ShortCircuit == old(ShortCircuit) && Wrapped == old(Wrapped) && RTop >= old(RTop)
+//@ ensures [failure-surfaces] implies(result == nil, Failed == old(Failed))
+//@ loop 1 invariant [lifecycle-untouched] St == old(St) && BeforeLen == old(BeforeLen) && AfterLen == old(AfterLen) && ApsCalls == old(ApsCalls) && InitCalls == old(InitCalls) && ShortCircuit == old(ShortCircuit) && Wrapped == old(Wrapped) && RTop >= old(RTop)
+//@ loop 1 invariant [no-failure-so-far] Failed == old(Failed)
+
+//@ func (*PostProcessorRegistrationDelegate).GetEarlyBeanReference
+//@ property C03 C09
+//@ requires [processors-non-nil] ProcsOK(f)
+//@ assigns Failed
+//@ ensures [error-means-nil] implies(result1 != nil, result0 == nil)
+//@ ensures [returns-component] implies(result1 == nil && m != nil, result0 != nil)
+//@ ensures [no-smart-processor-no-wrap] implies(!f.hasInstantiationAwareComponentPostProcessor && result1 == nil, result0 == m)
+//@ ensures [failure-surfaces] implies(result1 == nil, Failed == old(Failed))
+//@ loop 1 invariant [still-a-component] exposedComponent != nil || m == nil
+//@ loop 1 invariant [no-failure-so-far] Failed == old(Failed)
+
+// ---- creation of one component -------------------------------------------------------------------------------------
+
+//@ func (*defaultFactory).genProxyComponent
+//@ property C03
+//@ requires [named] name != "" && newComponent != nil
+//@ assigns RTop
+//@ ensures [rtop-monotone] RTop >= old(RTop)
+//@ ensures [proxy-built] result1 == nil && MetaOK(result0) && fresh(result0) && result0.Raw == newComponent && result0.ProxyMeta == origin && len(result0.Dependent) == 0
+
+//@ func (*defaultFactory).getEarlyBeanReference
+//@ property C03 C01
+//@ requires [wired] FWired(f) && ProcsOK(f.postProcessorRegistrationDelegate) && name != ""
+//@ requires [meta-built] MetaOK(m)
+//@ assigns RTop, Failed
+//@ ensures [rtop-monotone] RTop >= old(RTop)
+//@ ensures [early-reference-built] implies(result1 == nil, MetaOK(result0))
+//@ ensures [error-means-nil] implies(result1 != nil, result0 == nil)
+//@ ensures [unwrapped-is-same-meta] implies(result1 == nil && result0 != m, fresh(result0) && result0.ProxyMeta == m && len(result0.Dependent) == 0)
+//@ ensures [failure-surfaces] implies(result1 == nil, Failed == old(Failed))
+
+// The early-reference callback registered for a component in creation: a closure over (f, name, meta).
+//@ func (*defaultFactory).doCreateComponent$1
+//@ property C01 C03 C04
+//@ callback (container.SingletonFactory).GetComponent as container.FuncSingletonFactory
+//@ stable f.singletonComponentRegistry, f.postProcessorRegistrationDelegate, meta.Base, meta.dependentSet
+//@ requires-at-creation [factory-wired] FWired(f) && ProcsOK(f.postProcessorRegistrationDelegate) && MetaOK(meta) && name != ""
+//@ requires [inv] RegInv(Reg(f))
+//@ assigns RegFrame(Reg(f)), CreationFrame()
+//@ ensures [inv-kept] RegInv(Reg(f))
+//@ ensures [rely] RegRely(Reg(f))
+//@ ensures [early-reference-built] implies(result1 == nil, MetaOK(result0))
+//@ ensures [caches-untouched] CachesUnchanged(Reg(f)) && Reg(f).Creates == old(Reg(f).Creates) && Reg(f).HasHole == old(Reg(f).HasHole) && Reg(f).Hole == old(Reg(f).Hole)
+//@ ensures [stack-kept] StackKeptAll(Reg(f))
+//@ ensures [failure-surfaces] implies(result1 == nil, Failed == old(Failed))
+//@ ensures [counts-early-run] Reg(f).EarlyRuns == store(old(Reg(f).EarlyRuns), name, old(Reg(f).EarlyRuns[name]) + 1)
+//@ ghost before call getEarlyBeanReference: f.singletonComponentRegistry.EarlyRuns = store(f.singletonComponentRegistry.EarlyRuns, name, f.singletonComponentRegistry.EarlyRuns[name] + 1)
+
+//@ func (*defaultFactory).populateComponent
+//@ property C01 C02 C05 C09
+//@ requires [inv] FInv(f) && !Reg(f).HasHole
+//@ requires [fresh-attempt] St[name] == 0 && MetaOK(meta) && Reg(f).IC[name]
+//@ assigns RegFrame(Reg(f)), CreationFrame()
+//@ ensures [inv-kept] FInv(f) && !Reg(f).HasHole
+//@ ensures [rely] RegRely(Reg(f))
+//@ ensures [marks-untouched] Reg(f).IC == old(Reg(f).IC)
+//@ ensures [own-lifecycle-untouched] St[name] == 0 && ShortCircuit[name] == old(ShortCircuit[name])
+//@ ensures [stack-kept] StackKeptAll(Reg(f))
+//@ ensures [failure-surfaces] implies(result == nil, Failed == old(Failed))
+// Stage-B composition, assumed here: after the properties stage every component property of this Meta is narrowed and
+// well-formed (C08 [injects-nil-free], C11 field scan), nested creations of OTHER components leave this Meta's
+// properties alone, and a substituted (proxied) dependency stays assignable wherever the original was (A-CALLBACK).
+//@ loop 1 free-invariant [own-properties-stay-wellformed] forall(k, int, implies(0 <= k && k < len(PropsOf(meta, component_definition.PropertyTypeComponent)), PropOK(PropsOf(meta, component_definition.PropertyTypeComponent)[k])))
+//@ assume before call Inject: [substitutes-stay-assignable] forall(k, int, implies(0 <= k && k < len(injects) && !IsSelfOf(node, injects[k]), RAssignable(RTypeOf(injects[k].Value), TargetType(node))))
+//@ loop 1 invariant [outer] FInv(f) && !Reg(f).HasHole && RegRely(Reg(f)) && Reg(f).IC == old(Reg(f).IC) && St[name] == 0 && ShortCircuit[name] == old(ShortCircuit[name]) && Failed == old(Failed) && StackKeptAll(Reg(f))
+//@ loop 2 invariant [inner] FInv(f) && !Reg(f).HasHole && RegRely(Reg(f)) && Reg(f).IC == old(Reg(f).IC) && St[name] == 0 && ShortCircuit[name] == old(ShortCircuit[name]) && Failed == old(Failed) && StackKeptAll(Reg(f))
+//@ loop 2 invariant [injects-are-lookups] len(injects) == _done && forall(i, int, implies(0 <= i && i < _done, injects[i] != nil && injects[i] == Cur(Reg(f), dependencies[i].Name())), injects[i])
+
+//@ spec func AllInCreation(r container.SingletonComponentRegistry, m *component_definition.Meta) bool = forall(i, int, implies(0 <= i && i < len(m.Dependent), r.IC[m.Dependent[i].Name()]), m.Dependent[i])
+
+//@ func (*defaultFactory).doCreateComponent
+//@ property C01 C02 C03 C05 C09
+//@ requires [inv] FInv(f)
+//@ requires [marked-with-hole] Reg(f).IC[name] && Reg(f).HasHole && Reg(f).Hole == name
+//@ requires [fresh-attempt] St[name] == 0 && MetaOK(meta) && name != ""
+//@ assigns RegFrame(Reg(f)), CreationFrame()
+//@ closure 1 ghost closure.Role = RoleEarlyRef()
+//@ closure 1 ghost closure.ForName = name
+//@ closure 1 ghost closure.Reg = f.singletonComponentRegistry
+//@ ensures [inv-kept] FInv(f) && !Reg(f).HasHole
+//@ ensures [rely] RegRely(Reg(f))
+//@ ensures [marks-untouched] Reg(f).IC == old(Reg(f).IC)
+//@ ensures [stack-kept] StackKept(Reg(f), name)
+//@ ensures [returns-built-meta] implies(result1 == nil, MetaOK(result0))
+//@ ensures [error-means-nil] implies(result1 != nil, result0 == nil)
+//@ ensures [lifecycle-complete] implies(result1 == nil, St[name] == 6)
+//@ ensures [own-creation-count-kept] Reg(f).Creates[name] == old(Reg(f).Creates[name])
+//@ ensures [unwrapped-publishes-early] implies(result1 == nil && !Wrapped[name] && Reg(f).L2Dom[name], result0 == Reg(f).L2[name])
+//@ ensures [no-early-returns-exposed] implies(result1 == nil && !Wrapped[name] && !Reg(f).L2Dom[name], result0 == meta)
+//@ ensures [wrap-detected] implies(result1 == nil && Wrapped[name], result0 != meta && fresh(result0) && result0.ProxyMeta == meta)
+//@ ensures [no-stale-finished-holder] implies(result1 == nil && Reg(f).L2Dom[name] && result0 != Reg(f).L2[name], AllInCreation(Reg(f), Reg(f).L2[name]) && AllInCreation(Reg(f), meta))
+//@ ensures [no-stale-in-creation-holder] {C03 C01} implies(result1 == nil && Reg(f).L2Dom[name] && result0 != Reg(f).L2[name], len(Reg(f).L2[name].Dependent) == 0 && len(meta.Dependent) == 0)
+//@ ensures [failure-surfaces] implies(result1 == nil, Failed == old(Failed))
+//@ ghost after call populateComponent: St = store(St, name, 1)
+//@ ghost after call InitializeComponent: Wrapped = store(Wrapped, name, wrappedInstance != instance)
+//@ assume before call GetDependents: [dependents-non-nil] forall(i, int, implies(0 <= i && i < len(earlySingletonReference.Dependent), earlySingletonReference.Dependent[i] != nil)) && forall(i, int, implies(0 <= i && i < len(meta.Dependent), meta.Dependent[i] != nil))
+//@ assert after call append #1: [dependents-are-holder-names] len(dependents) == len(earlySingletonReference.Dependent) + len(meta.Dependent) && forall(i, int, implies(0 <= i && i < len(earlySingletonReference.Dependent), dependents[i] == earlySingletonReference.Dependent[i].Name()), earlySingletonReference.Dependent[i]) && forall(j, int, implies(0 <= j && j < len(meta.Dependent), dependents[len(earlySingletonReference.Dependent) + j] == meta.Dependent[j].Name()), meta.Dependent[j])
+//@ loop 1 invariant [scan] 0 <= _done && _done <= len(dependents) && (backing(actualDependents) == 0 || backing(actualDependents) > old(top()))
+//@ loop 1 invariant [actual-iff-finished] (len(actualDependents) != 0) == exists(i, int, 0 <= i && i < _done && !Reg(f).IC[dependents[i]])
+//@ loop 1 invariant [state-kept] FInv(f) && !Reg(f).HasHole && RegRely(Reg(f)) && Reg(f).IC == old(Reg(f).IC) && St[name] == 6 && Failed == old(Failed) && StackKept(Reg(f), name) && Reg(f).Creates[name] == old(Reg(f).Creates[name]) && Wrapped[name] && exposedComponent != meta && MetaOK(exposedComponent) && fresh(exposedComponent) && exposedComponent.ProxyMeta == meta && Reg(f).L2Dom[name] && earlySingletonReference == Reg(f).L2[name]
